@@ -11,8 +11,10 @@ import build
 from simlib import HarnessError, Pool, Rng, sha12
 
 VERIF = build.VERIF
-REPLAYS = os.path.join(VERIF, "replays")
-EVIDENCE = os.path.join(VERIF, "evidence")
+# sensitivity runs against scratch trees (VERIF_REPO=...) must not overwrite the evidence of /repo
+_OUT = os.environ.get("VERIF_OUT_DIR")
+REPLAYS = os.path.join(_OUT or VERIF, "replays")
+EVIDENCE = os.path.join(_OUT or VERIF, "evidence")
 
 
 def jhash(obj):
